@@ -113,7 +113,17 @@ func interiorMean(c DCfg, bg [][]uint16) float64 {
 
 var c15APIEverywhere = false
 
-func runC15(c c15Case) (string, string, int) {
+// runC15: a panic inside the detector is a finding about the case, not a harness failure.
+func runC15(c c15Case) (sig, msg string, n int) {
+	defer func() {
+		if p := recover(); p != nil {
+			sig, msg = "C15:detector-panic", fmt.Sprintf("%+v stream %s: the detector panicked: %v", c.Cfg, fmtStream(c.Frames), p)
+		}
+	}()
+	return runC15Deep(c)
+}
+
+func runC15Deep(c c15Case) (string, string, int) {
 	conf := c.Cfg.motionConf()
 	d := motion.NewMotionDetector(conf, c.Cfg.Preview, c.Cfg.cam())
 	if _, _, ok := detState(d); !ok {
